@@ -829,6 +829,11 @@ MID_CFG = (
     [dict(ct=ct, stage=st) for ct in ("triangle", "quad", "tetra", "hexahedron") for st in ("edges", "faces", "edges+faces")]
     + [dict(ct=ct, stage=st) for ct in ("tetra", "hexahedron") for st in ("volumes", "edges+volumes", "edges+faces+volumes")]
     + [dict(ct=ct, stage="convert") for ct in ("triangle", "quad", "tetra", "hexahedron")]
+    # the name of the new cell type handed in by the caller (function: cell_type_new=, Mesh method: cell_type=):
+    # "custom" = a name of the caller's own at every stage, "vtk" = the VTK name spelled out (same as the automatic one)
+    + [dict(ct=ct, stage="edges", via=via, name="custom") for ct in ("quad", "tetra") for via in ("function", "method")]
+    + [dict(ct=ct, stage="edges+faces", via=via, name=nm) for ct in ("triangle", "quad") for via in ("function", "method") for nm in ("custom", "vtk")]
+    + [dict(ct=ct, stage="edges+faces+volumes", via=via, name=nm) for ct in ("tetra", "hexahedron") for via in ("function", "method") for nm in ("custom", "vtk")]
 )
 
 
@@ -899,6 +904,25 @@ def midpoints(vk, cfg):
         return
     kinds = stage.split("+")
     new = mesh
+    if cfg.get("name"):
+        # cell_type_new= / cell_type=: "a string that specifies the new cell type": the returned mesh carries exactly that
+        # name, the inserted points and the connectivity are those of the automatic choice (same obligations below)
+        for i, k in enumerate(kinds):
+            # a name of the caller's own at the LAST stage only (the next stage must know the cell type it starts from)
+            given = EXPECTED_NAME[ct, tuple(kinds[: i + 1])] if cfg["name"] == "vtk" or i + 1 < len(kinds) else f"user-{ct}+{'+'.join(kinds)}"
+            before = new
+            sb = snap(vk, before)
+            if cfg["via"] == "method":
+                vk.real(getattr(fem.Mesh, "add_midpoints_" + k))
+                new = getattr(before, "add_midpoints_" + k)(cell_type=given)
+            else:
+                new = {"edges": fm.add_midpoints_edges, "faces": fm.add_midpoints_faces, "volumes": fm.add_midpoints_volumes}[k](before, cell_type_new=given)
+            ensures_same(vk, f"{stage}/after-{k}/cell_type==the name handed in", new.cell_type, given)
+            ensures_same(vk, f"{stage}/after-{k}/a new Mesh is returned", isinstance(new, fem.Mesh) and new is not before, True)
+            frame(vk, f"{stage}/after-{k}/input mesh", before, sb)
+        check_inserted(vk, cfg, stage, mesh, new, kinds)
+        frame(vk, stage, mesh, s0)
+        return
     for i, k in enumerate(kinds):
         fun = {"edges": fm.add_midpoints_edges, "faces": fm.add_midpoints_faces, "volumes": fm.add_midpoints_volumes}[k]
         if (ct, tuple(kinds[: i + 1])) in EXPECTED_NAME:
@@ -929,7 +953,7 @@ def check_inserted(vk, cfg, label, mesh, new, kinds):
     n0 = cells.NCORNER[ct]
     ent = sub_entities(ct)
     name = EXPECTED_NAME.get((ct, tuple(kinds)))
-    if name is not None:
+    if name is not None and cfg.get("name") != "custom":
         ensures_same(vk, label + "/cell_type", new.cell_type, name)
     # corner geometry untouched
     vk.ensures_eq(label + "/old-points-unchanged", new.points[: len(P0)], P0)
